@@ -921,7 +921,72 @@ def check_C05(ctx):
     return finish(ctx, rule='4/6/P cases: is_ipv4, is_ipv6, is_ipaddr on (content, rest); E cases: u@[content] with junk before/after the brackets in four modes; the upper bound (RFC 4291 / dotted quad), '
                   'the lower bound (RFC 5321 4.1.3) and the family flag are also evaluated directly on the implementation outputs with an independent reading of the grammars')
 
-CHECKS = {'C05': check_C05, 'C17': check_C17, 'C11': check_C11, 'C13': check_C13, 'C15': check_C15, 'C16': check_C16, 'C19': check_C19, 'C01': check_C01, 'C07': check_C07, 'C08': check_C08, 'C09': check_C09, 'C12': check_C12, 'C03': check_C03, 'C02': check_C02, 'C04': check_C04}
+# ------------------------------------------------------------------ C10
+def check_C10(ctx):
+    step_proof(ctx)
+    lib = ctx.snap.lib()
+    doms = gens.idn_domains(ctx.rnd, 3000 if not ctx.thorough() else 30000)
+    import csv
+    raw = list(csv.reader(open(os.path.join(ctx.snap.src, 'data', 'raw.csv'), newline='', encoding='utf-8')))[1:]
+    doms += [('mail.' + r[0]).encode() for r in raw if any(ord(ch) > 127 for ch in r[0])]
+    asc = gens.dom_class(5)[::4] + gens.dom_boundary()[::3] + [d for d in gens.reserved_domains()[::11]] + [b'B.CoM', b'Example.ORG', b'TEST', b'b.MUSEUM', b'A-B.c-D.Int']
+    orc = vlib.idn_oracle(doms + asc)
+    alab = sorted(set(a for d in doms for (rc, a) in [orc[d]] if rc == 0 and a))
+    orc.update(vlib.idn_oracle(alab))
+    # oracle hypotheses of the theorems, checked on every generated input against the real libidn2
+    hyp_bad = []
+    for d in doms:
+        rc, a = orc[d]
+        if rc == 0 and a and orc.get(a, (1, b''))[0:2] != (0, a):
+            hyp_bad.append(('idn(A-label) = A-label', d, a, orc.get(a)))
+    for d in asc:
+        rc, a = orc[d]
+        if rc == 0 and a != d.lower():
+            hyp_bad.append(('ASCII input is lower-cased', d, a, None))
+    ctx.rep.notes.append('oracle hypotheses (idn a = a for produced A-labels; ASCII lower-cased) checked on %d conversions: %d exceptions %s' % (len(doms) + len(asc), len(hyp_bad), hyp_bad[:3]))
+    desc = lambda ln, a, b: 'is_utf8_domain / mode-6531 result differs from the model of theorems C10_*: implementation %s, model %s' % (a, b)
+    ul = gens.u_lines(doms + alab + asc, orc)
+    corr(ctx, 'is_utf8_domain(U-, A-label, ASCII)', ul, first_fields(2), describe=desc, genuine=False, nontrivial=lambda ln, o: not o.startswith('-16'))
+    el = gens.e_lines([b'u@' + d for d in (doms[::2] + alab[::2] + asc[::2]) if b'@' not in d], orc)
+    corr(ctx, 'addresses(4 modes)', el, first_fields(3), describe=desc, genuine=False, nontrivial=nontriv_addr)
+    # the relations of the property on implementation outputs
+    c_u, _ = vlib.run_both(lib, ctx.snap, ul)
+    res = {}
+    for l, o in zip(ul, c_u):
+        f = l.split(' '); res[(f[2], f[1])] = o.split(' ')[:2]
+    c_e, _ = vlib.run_both(lib, ctx.snap, el)
+    eres = {}
+    for l, o in zip(el, c_e):
+        f = l.split(' '); eres[(f[3], int(f[1]), f[2])] = o.split(' ')[:3]
+    nb = 0
+    for d in doms:
+        rc, a = orc[d]
+        for t in ('0', '1'):
+            ru = res.get((hx(d), t))
+            if rc == 0 and a and (0, a) == orc.get(a, (1, b''))[0:2]:
+                ra = res.get((hx(a), t))
+                if ru and ra and ru != ra and nb < 4:
+                    nb += 1; relation_violation(ctx, 'C10_U_and_A_label_identical', {'u_label': hx(d), 'a_label': hx(a), 'tld_check': t, 'u_result': ru, 'a_result': ra,
+                                                'explanation': 'U-label and A-label spelling of the same domain get different result / IDN codes in mode 6531'})
+                e6 = eres.get((hx(b'u@' + a), 3, t)); e1 = eres.get((hx(b'u@' + a), 1, t))
+                if e6 and e1 and (e6[0] != e1[0] and not (int(e1[0]) < 0 and e1[0] in ('-23', '-26') and False)) and nb < 4:
+                    nb += 1; relation_violation(ctx, 'C10_ascii_modes_on_the_A_label', {'a_label': hx(a), 'tld_check': t, 'mode_6531': e6, 'mode_5321': e1,
+                                                'explanation': 'the ASCII modes give the A-label spelling another decision / class than mode 6531'})
+            if rc != 0 and ru and ru[0] != '-2' and nb < 4:
+                nb += 1; relation_violation(ctx, 'C10_idn_refusal_is_rejection', {'domain': hx(d), 'libidn2_rc': rc, 'implementation': ru,
+                                            'explanation': 'the IDN library refuses this domain but is_utf8_domain does not report the IDN error'})
+    for d in asc:
+        if b'@' in d or not d: continue
+        for t in ('0', '1'):
+            e6 = eres.get((hx(b'u@' + d), 3, t)); e1 = eres.get((hx(b'u@' + d), 1, t))
+            if e6 and e1 and e6[0] != e1[0] and e6[0] != '-2' and nb < 4:
+                nb += 1; relation_violation(ctx, 'C10_all_ascii_domains', {'domain': hx(d), 'tld_check': t, 'mode_6531': e6, 'mode_5321': e1,
+                                            'explanation': 'all-ASCII domain: mode 6531 differs from the ASCII modes and the reason is not an IDN-library error'})
+    return finish(ctx, rule='U cases: is_utf8_domain on domains of 1-4 labels from 8 scripts (with hyphen / disallowed-code-point / xn-- mutations), their A-label forms, every IDN TLD of raw.csv, '
+                  'ASCII domains; E cases: the same as addresses in four modes; libidn2 2.3.3 is the oracle and the hypotheses the theorems make about it are checked on every conversion',
+                  extra_trusted=['libidn2 2.3.3 (IDNA2008 conversion; its accept/reject decision for non-ASCII labels is taken as the definition of "IDNA2008-valid")'])
+
+CHECKS = {'C10': check_C10, 'C05': check_C05, 'C17': check_C17, 'C11': check_C11, 'C13': check_C13, 'C15': check_C15, 'C16': check_C16, 'C19': check_C19, 'C01': check_C01, 'C07': check_C07, 'C08': check_C08, 'C09': check_C09, 'C12': check_C12, 'C03': check_C03, 'C02': check_C02, 'C04': check_C04}
 
 def main():
     if len(sys.argv) >= 3 and sys.argv[1] == 'replay':
